@@ -101,6 +101,12 @@ Proof.
   - apply IH; assumption.
 Qed.
 
+Lemma NoDup_app_tail {A} (a b : list A) : NoDup (a ++ b) -> NoDup b.
+Proof.
+  induction a as [|y a IH]; intros H; [exact H|].
+  simpl in H. inversion H; subst. apply IH. assumption.
+Qed.
+
 (* missing `takes` entries mean "consume the whole leaf" *)
 Fixpoint drain_all (ls : list (list nat)) (takes : list nat) : list (list nat * list nat) :=
   match ls with
@@ -111,6 +117,18 @@ Fixpoint drain_all (ls : list (list nat)) (takes : list nat) : list (list nat * 
       | k :: ks => drain_leaf l k :: drain_all ls' ks
       end
   end.
+
+(* leaf k is stopped after its entry of `takes` (if any) *)
+Lemma drain_all_nth : forall ls takes k, k < length ls ->
+  nth k (drain_all ls takes) ([], []) =
+  drain_leaf (nth k ls [])
+    (match nth_error takes k with Some n => n | None => length (nth k ls []) end).
+Proof.
+  induction ls as [|l ls IH]; intros takes k Hk; [simpl in Hk; lia|].
+  destruct takes as [|n ns]; destruct k as [|k]; cbn [drain_all nth nth_error]; try reflexivity.
+  - rewrite IH by (simpl in Hk; lia). destruct k; reflexivity.
+  - apply IH. simpl in Hk. lia.
+Qed.
 
 Lemma drain_all_perm : forall ls takes,
   Permutation (concat (map fst (drain_all ls takes)) ++ concat (map snd (drain_all ls takes)))
@@ -280,7 +298,9 @@ Section ParFacts.
           RangeOK t rt /\
           contents t it = contents t l ++ contents t rt /\
           it_end l - it_next l < it_end it - it_next it /\
-          it_end rt - it_next rt < it_end it - it_next it
+          it_end rt - it_next rt < it_end it - it_next it /\
+          (* exact accounting: the tail's first group is loaded by the split *)
+          (it_end l - it_next l) + (it_end rt - it_next rt) + GW = it_end it - it_next it
       end.
   Proof.
     intros H Hok. pose proof (GW_pos B HW) as HG.
@@ -303,38 +323,37 @@ Section ParFacts.
       { unfold mid. rewrite Hn, Hf. lia. }
       { unfold len in *. lia. }
       rewrite Hr. cbn [bind].
-      eexists. eexists. split; [reflexivity|].
+      set (L := mkIter (it_cur it) (it_first it) (it_next it) (it_next it + mid) (it_items it)).
+      set (R := mkIter cur' (it_next it + mid) (it_next it + mid + GW)
+                       (it_next it + mid + (len - mid)) (it_items it)).
+      exists L, (Some R). split; [reflexivity|].
       (* the contents equation *)
-      assert (Hcl' : contents t (mkIter (it_cur it) (it_first it) (it_next it) (it_next it + mid) (it_items it))
-                     = map (fun b => it_first it + b) (it_cur it) ++ fl t (it_next it) mid).
-      { unfold contents. cbn [it_cur it_first it_next it_end]. do 2 f_equal. lia. }
-      assert (Hcr' : contents t (mkIter cur' (it_next it + mid) (it_next it + mid + GW)
-                                        (it_next it + mid + (len - mid)) (it_items it))
-                     = fl t (it_next it + mid) (len - mid)).
-      { unfold contents. cbn [it_cur it_first it_next it_end]. rewrite Hc', <- fl_app.
+      assert (HcL : contents t L = map (fun b => it_first it + b) (it_cur it) ++ fl t (it_next it) mid).
+      { unfold contents, L. cbn [it_cur it_first it_next it_end]. do 2 f_equal. lia. }
+      assert (HcR : contents t R = fl t (it_next it + mid) (len - mid)).
+      { unfold contents, R. cbn [it_cur it_first it_next it_end]. rewrite Hc', <- fl_app.
         f_equal. lia. }
-      assert (Hsplit : contents t it =
-                       contents t (mkIter (it_cur it) (it_first it) (it_next it) (it_next it + mid) (it_items it)) ++
-                       contents t (mkIter cur' (it_next it + mid) (it_next it + mid + GW)
-                                          (it_next it + mid + (len - mid)) (it_items it))).
-      { rewrite Hcl', Hcr', <- app_assoc, <- fl_app. unfold contents. fold len.
+      assert (Hsplit : contents t it = contents t L ++ contents t R).
+      { rewrite HcL, HcR, <- app_assoc, <- fl_app. unfold contents. fold len.
         do 2 f_equal. lia. }
       split; [|split; [|split; [exact Hsplit|]]].
       + (* the head *)
-        unfold RangeOK. cbn [it_cur it_first it_next it_end].
-        split; [exact Hn|]. split; [exists q; exact Hf|]. split; [|split; [exact Hcur|]].
-        * right. split; [exists (q + 1 + m); unfold mid; rewrite Hn, Hf; lia|].
+        unfold RangeOK. split; [exact Hn|]. split; [exists q; exact Hf|].
+        split; [|split; [exact Hcur|]].
+        * right. unfold L. cbn [it_next it_end].
+          split; [exists (q + 1 + m); unfold mid; rewrite Hn, Hf; lia|].
           unfold len in *. lia.
-        * exists sa. eexists. rewrite Hseg, Hsplit, <- !app_assoc. reflexivity.
+        * exists sa, (contents t R ++ sb). rewrite Hseg, Hsplit, <- !app_assoc. reflexivity.
       + (* the tail *)
-        unfold RangeOK. cbn [it_cur it_first it_next it_end].
-        split; [reflexivity|]. split; [exists (q + 1 + m); unfold mid; rewrite Hn, Hf; lia|].
+        unfold RangeOK. split; [reflexivity|].
+        split; [exists (q + 1 + m); unfold R, mid; cbn [it_first]; rewrite Hn, Hf; lia|].
         split; [|split].
-        * right. replace (it_next it + mid + (len - mid)) with (it_end it) by (unfold len in *; lia).
+        * right. unfold R. cbn [it_next it_end].
+          replace (it_next it + mid + (len - mid)) with (it_end it) by (unfold len in *; lia).
           split; [exists qe; exact Hqe | exact Hnb].
-        * exists 0. rewrite Hc'. reflexivity.
-        * eexists. exists sb. rewrite Hseg, Hsplit, <- !app_assoc. reflexivity.
-      + cbn [it_next it_end]. unfold len in *. lia.
+        * exists 0. unfold R. cbn [it_cur it_first]. rewrite Hc'. reflexivity.
+        * exists (sa ++ contents t L), sb. rewrite Hseg, Hsplit, <- !app_assoc. reflexivity.
+      + unfold L, R. cbn [it_next it_end]. unfold len in *. lia.
   Qed.
 
   (* ---------------------------------------------------------------------------------------- *)
@@ -355,7 +374,7 @@ Section ParFacts.
     - destruct (split_spec t it H Hok) as (l & r & Hs & Hl & Hr).
       rewrite Hs. cbn [bind]. simpl in Hfu.
       destruct r as [rt|].
-      + destruct Hr as (Hrt & Hc & _ & _).
+      + destruct Hr as (Hrt & Hc & _).
         destruct (IH d l Hl ltac:(lia)) as (la & d1 & Ha & Hca & Hd1).
         rewrite Ha. cbn [bind].
         destruct (IH d1 rt Hrt ltac:(lia)) as (lb & d2 & Hb & Hcb & Hd2).
@@ -426,7 +445,7 @@ Section ParFacts.
         destruct (Nat.lt_ge_cases k (length ls)) as [Hlt|Hge].
         * apply in_concat. exists (nth k ls []). split; [apply nth_In; exact Hlt | exact Hk].
         * rewrite nth_overflow in Hk by exact Hge. destruct Hk.
-      + apply NoDup_app_remove_l in Hnd. apply (IH Hnd j k i); [lia | exact Hj | exact Hk].
+      + apply NoDup_app_tail in Hnd. apply (IH Hnd j k i); [lia | exact Hj | exact Hk].
   Qed.
 
   (* ---------------------------------------------------------------------------------------- *)
